@@ -11,17 +11,17 @@ META = {
 
 
 def run(run, model):
-    marker.report_rule(run, model, "C11.release-on-all-exits", marker.MARKER_REGIONS, "no exit (return, raise, exception or cancellation edge of any statement) is reached with the marker held")
-    marker.report_rule(run, model, "C10.own-release", marker.MARKER_REGIONS, "the state after the activation equals the state before it: removal by the owner only, or restore of the entry snapshot", as_rule="C11.exact-restore")
-    marker.finally_clean(run, model)
-    effects.handlers_rule(run, model)
+    run.do(marker.report_rule, model, "C11.release-on-all-exits", marker.MARKER_REGIONS, "no exit (return, raise, exception or cancellation edge of any statement) is reached with the marker held")
+    run.do(marker.report_rule, model, "C10.own-release", marker.MARKER_REGIONS, "the state after the activation equals the state before it: removal by the owner only, or restore of the entry snapshot", as_rule="C11.exact-restore")
+    run.do(marker.finally_clean, model)
+    run.do(effects.handlers_rule, model)
     for role, ck in gates.checkers(model).items():
         for kind in ("PRE", "POST"):
             for ev in ck.by_kind.get(kind, []):
                 later = ck.ids(ck.checked_bodies) | {ck.cfg.exit_return.id} if kind == "PRE" else {ck.cfg.exit_return.id}
                 ok, detail, node = ck.gate(ev, later)
                 run.check(ok, "C11.no-drop", "%s:%s" % (ck.fi.qual, kind), "the error returned by the evaluation is tested and raised; never discarded", detail, ck.loc(node), None, first_line(node.stmt))
-    c09.invariant_raise_site(run, model, "C11.no-drop")
+    run.do(c09.invariant_raise_site, model, "C11.no-drop")
     run.minimum("C11.release-on-all-exits", 5)
     run.minimum("C11.handlers", 6, "not_check, message generation, _find_self, three self-lookups")
     run.minimum("C11.finally-clean", 5)
